@@ -191,7 +191,7 @@ def run(ctx):
                     inner = val[2][2]
                     if x == 'cols':
                         okc = is_t(inner) and inner[1] == 'index' and inner[2] == arr and is_t(inner[3]) and inner[3][1] == 'tuple' and inner[3][3] == argv \
-                            and is_t(inner[3][2]) and inner[3][2][1] in ('slice', 'call', 'expr')
+                            and is_t(inner[3][2]) and inner[3][2] == T('slice3', C(None), C(None), C(None))
                         if not okc:
                             rep_probs.append("replay of ('cols', a0) gives %s, expected block[:, a0]" % show(inner)[:80])
                     else:
